@@ -127,6 +127,10 @@ def write_ruleset(path, spec):
             # the first loading put under the variable
             files[cat].append(fn)
         write_lines(os.path.join(path, FOLDER[cat], fn), [f"{v}\t{p}" for v, p in items], enc, final_newline=name not in nf)
+        if name in spec.get('blank_last_line', []):
+            # an empty line after the last record (what an editor leaves behind): a line without a value that is followed by nothing
+            with open(os.path.join(path, FOLDER[cat], fn), 'ab') as f_:
+                f_.write(b'\n')
     for cat in FOLDER:
         os.makedirs(os.path.join(path, FOLDER[cat]), exist_ok=True)
     # flat lists always exist in trainer output (possibly empty)
